@@ -19,6 +19,8 @@ def run_case(c):
     vs, d, u = c["nodes"], c["directed"], c["undirected"]
     g = oracles.build(vs, d, u, random.Random(c["shuffle"]))
     ivs = frozenset(dsl.Intervention(name=n, star=bool(s)) for n, s in c["ivs"])
+    # only the declared input type (a set of Intervention objects) is exercised: with plain Variables the real code converts the
+    # subscripts but its edge filter (+v / -v membership) no longer matches -- behaviour the property does not define
     try:
         r = g.intervene(set(ivs))
     except Exception as e:
